@@ -34,8 +34,16 @@ def build_variable(desc, v, domains):
     if not cost:
         return Variable(v["name"], dom, init)
     if cost["kind"] == "dict":
-        costs = {val: oracles.num(c) for val, c in zip(desc["domains"][v["domain"]], cost["costs"])}
-        return VariableWithCostDict(v["name"], dom, costs, init)
+        items = [(val, oracles.num(c)) for val, c in zip(desc["domains"][v["domain"]], cost["costs"])]
+        # the cost dict is the caller's: its keys may come in any order (key_order = permutation seed) and values
+        # costing nothing may be left out (drop_zero; a missing value costs 0) - same cost function either way
+        seed, ordered = cost.get("key_order", 0), []
+        while items:
+            seed, i = divmod(seed, len(items))
+            ordered.append(items.pop(i))
+        if cost.get("drop_zero"):
+            ordered = [(val, c) for val, c in ordered if c != 0]
+        return VariableWithCostDict(v["name"], dom, dict(ordered), init)
     if cost["kind"] == "expr":
         return VariableWithCostFunc(v["name"], dom, ExpressionFunction(cost["expr"]), init)
     raise ValueError(cost["kind"])
@@ -50,6 +58,17 @@ def build_constraint(desc, c, variables):
         return NAryMatrixRelation(scope, np_table(c, c.get("dtype")), name=c["name"])
     if c["kind"] == "expr":
         return constraint_from_str(c["name"], c["expr"], list(variables.values()))
+    if c["kind"] == "external":
+        # expression calling a helper defined in a python file (constraint_from_external_definition), optionally
+        # sliced on some of its variables afterwards (c["fixed"]): what a constraint on a sensor value looks like
+        import os
+        from pydcop.dcop.relations import constraint_from_external_definition
+        path = os.path.join(os.getcwd(), "ext_%d_%s.py" % (os.getpid(), c["name"]))
+        with open(path, "w", encoding="utf-8") as f:
+            f.write("def helper(x):\n    return %d * x + %d\n" % tuple(c["helper"]))
+        r = constraint_from_external_definition(c["name"], path, "source.helper(%s)" % c["expr"],
+                                                list(variables.values()))
+        return r.slice(dict(c["fixed"])) if c.get("fixed") else r
     raise ValueError(c["kind"])
 
 
